@@ -18,10 +18,22 @@
 //! small-noise data (r is itself rounding-sized there), so the bound is stated against ‖y‖, which
 //! is what the rounding analysis gives. κ(G_s) comes from the harness's Jacobi eigen-solver; cases with
 //! (64·ε + 4·γ_n)·κ > 1e-3 are counted as vacuous (nothing can be demanded of normal equations there).
+//!
+//! Besides the random single fits on fresh regressors there are two directed workloads:
+//!   * refit histories (stream 3): ONE regressor object is fitted on data set A, then B (another n), then
+//!     possibly C, or has its public `coef` field pre-set before the fit. Every refit gets the complete
+//!     oracle above and is compared with a fresh regressor fitted once on the same data
+//!     (`C14.refit.equals_fresh`, column-scaled difference ≤ 2B — not bitwise). Reused object and fresh twin
+//!     are both judged into scratch reports; what only the reused object fails is signed
+//!     `assertion|refit:after-ok` / `|refit:after-set-coef`, what the twin fails too keeps its `fit:*` signature.
+//!   * size sweep (stream 4): every degree 0..6 with EVERY n in degree+1..2000 (quick: once, abscissa kind
+//!     rotating with n; thorough: once per kind), fresh regressor, cheap oracle in plain f64 — no panic,
+//!     d+1 coefficients, finite, residual orthogonal to every power within 2B — signed `|sweep:deg=D`;
+//!     `rep.require("sweep:deg=D", 2000−D)` makes a run that skipped a size inconclusive.
 use crate::gen::Rng;
 use crate::oracle::dd::{gamma_n, Dd};
 use crate::oracle::linref;
-use crate::report::{guard, jf, jnum, par_cases, Cfg, Hasher, Report};
+use crate::report::{guard, jf, jnum, par_cases, Cfg, Hasher, Report, Violation};
 use compute::predict::PolynomialRegressor;
 use serde_json::json;
 
@@ -165,12 +177,21 @@ fn gen_case(i: usize, rng: &mut Rng) -> Case {
     if exact_int {
         d = d.min(3);
     }
-    let n = match rng.usize(0, 9) {
+    let n = draw_n(rng, d);
+    build_case(rng, kind, d, n, exact_int)
+}
+
+fn draw_n(rng: &mut Rng, d: usize) -> usize {
+    match rng.usize(0, 9) {
         0 => d + 1,
         1..=3 => rng.usize(d + 2, 30),
         4..=7 => rng.usize(30, 300),
         _ => rng.usize(300, 2000),
-    };
+    }
+}
+
+/// the data set of one case once (kind, degree, n) are fixed
+fn build_case(rng: &mut Rng, kind: &'static str, d: usize, n: usize, exact_int: bool) -> Case {
     let mut x = abscissae(rng, kind, n, d);
     // the property needs >= d+1 distinct abscissae; continuous draws that collide (clamping) are re-drawn
     let mut tries = 0;
@@ -200,17 +221,32 @@ fn one_fit(rep: &mut Report, c: &Case) {
         Hasher::new().s(c.kind).u(d as u64).u(n as u64).f(c.sigma).f(c.x[0]).f(c.y[0]).f(c.x[n - 1]).finish(),
         d >= 1 && c.sigma > 0.0 && n > m,
     );
-    let input = |extra: serde_json::Value| json!({"degree": d, "n": n, "kind": c.kind, "sigma": c.sigma, "x": jf(&c.x), "y": jf(&c.y), "true_coef": jf(&c.truth), "detail": extra});
-
     let fitted = guard(|| {
         let mut model = PolynomialRegressor::new(d);
         model.fit(&c.x, &c.y);
         model.coef
     });
+    check_coef(rep, c, &regime, fitted, None);
+}
+
+/// what a twin comparison needs to know about the data set
+struct Scale {
+    colnorm: Vec<f64>,
+    /// a-priori bound B (absolute, already multiplied by ‖y‖)
+    bound: f64,
+    vacuous: bool,
+}
+
+/// All assertions on the outcome of one `fit` of the data set `c` (coefficients or panic message), under
+/// the given regime label. `history` describes what happened to the regressor object before this fit
+/// (None: freshly constructed).
+fn check_coef(rep: &mut Report, c: &Case, regime: &str, fitted: Result<Vec<f64>, String>, history: Option<&serde_json::Value>) -> Option<(Vec<f64>, Scale)> {
+    let (d, m, n) = (c.d, c.d + 1, c.x.len());
+    let input = |extra: serde_json::Value| json!({"degree": d, "n": n, "kind": c.kind, "sigma": c.sigma, "x": jf(&c.x), "y": jf(&c.y), "true_coef": jf(&c.truth), "object_history": history, "detail": extra});
     let coef = match fitted {
         Err(msg) => {
             rep.check("C14.fit.no_panic", &regime, false, || input(json!({"panic": msg})));
-            return;
+            return None;
         }
         Ok(cf) => {
             rep.check("C14.fit.no_panic", &regime, true, || json!(null));
@@ -218,7 +254,7 @@ fn one_fit(rep: &mut Report, c: &Case) {
         }
     };
     if !rep.check("C14.coef.len", &regime, coef.len() == m, || input(json!({"coef": jf(&coef)}))) {
-        return;
+        return None;
     }
 
     // ---- oracle quantities in double-double
@@ -358,10 +394,273 @@ fn one_fit(rep: &mut Report, c: &Case) {
         check_predict(rep, &regime, &coef, &c.x);
     }
     rep.sample(|| json!({"degree": d, "n": n, "kind": c.kind, "sigma": c.sigma, "coef": jf(&coef), "true_coef": jf(&c.truth), "kappa_scaled_gram": jnum(kappa)}));
+    Some((coef, Scale { colnorm, bound: rel * ynorm, vacuous }))
+}
+
+// ---------------------------------------------------------------------------------------------
+// object-reuse histories: the property quantifies over data sets, not over the past of the regressor
+// object, so a `fit` on an object that has been fitted before (or whose public `coef` field holds
+// anything of the right length) must return the least-squares polynomial of the CURRENT data set.
+
+struct History<'a> {
+    /// value written to the public `coef` field before the first fit, if any
+    preset: Option<&'a [f64]>,
+    /// data sets fitted earlier on the same object, oldest first
+    earlier: Vec<&'a Case>,
+}
+
+impl History<'_> {
+    fn json(&self) -> serde_json::Value {
+        json!({"coef_field_preset": self.preset.map(jf),
+               "earlier_fits_on_same_object": self.earlier.iter().map(|c| json!({"kind": c.kind, "n": c.x.len(), "sigma": c.sigma, "x": jf(&c.x), "y": jf(&c.y)})).collect::<Vec<_>>()})
+    }
+}
+
+fn refit_kind(rng: &mut Rng, d: usize) -> (&'static str, bool) {
+    let mut kind = *rng.choose(&KINDS);
+    if kind == "integer" && d > 4 {
+        kind = "uniform";
+    }
+    let exact_int = kind == "integer" && d <= 3 && rng.chance(0.5);
+    (kind, exact_int)
+}
+
+/// one refit of `model` on data set `c` under `regime`: the full single-fit oracle on the result, and
+/// agreement with a fresh regressor fitted once on the same data
+fn refit_step(rep: &mut Report, regime: &str, model: &mut PolynomialRegressor, c: &Case, hist: &History) -> bool {
+    let (d, n) = (c.d, c.x.len());
+    rep.case(regime);
+    rep.seen(&format!("refit:deg={}", d), 1);
+    if let Some(prev) = hist.earlier.last() {
+        let np = prev.x.len();
+        rep.seen(if n > np { "refit:n-grows" } else if n < np { "refit:n-shrinks" } else { "refit:n-same" }, 1);
+    }
+    rep.distinct(Hasher::new().s(regime).u(hist.earlier.len() as u64).u(d as u64).u(n as u64).f(c.sigma).f(c.x[0]).f(c.y[0]).finish(), d >= 1 && c.sigma > 0.0 && n > d + 1);
+    let hj = hist.json();
+    let fitted = guard(|| {
+        model.fit(&c.x, &c.y);
+        model.coef.clone()
+    });
+    let panicked = fitted.is_err();
+    let fresh = guard(|| {
+        let mut twin = PolynomialRegressor::new(d);
+        twin.fit(&c.x, &c.y);
+        twin.coef
+    });
+    // Both outcomes get the full single-fit oracle, each into a scratch report under the single-fit regime;
+    // what fails on the reused object ONLY is attributed to the history (regime `refit:*`), what fails on the
+    // fresh twin as well keeps the signature the main workload gives it.
+    let noise = if c.sigma == 0.0 { "exact" } else { "noisy" };
+    let single = format!("fit:{}:{}", c.kind, noise);
+    let mut s_re = Report::new();
+    s_re.case_seed = rep.case_seed;
+    let checked = check_coef(&mut s_re, c, &single, fitted, Some(&hj));
+    let mut s_fr = Report::new();
+    s_fr.case_seed = rep.case_seed;
+    let fresh = check_coef(&mut s_fr, c, &single, fresh, None).map(|(fc, _)| fc);
+    merge_differential(rep, s_re, s_fr, regime);
+    if panicked {
+        return false;
+    }
+    if let (Some((coef, sc)), Some(fc)) = (checked, fresh) {
+        if coef.iter().zip(&fc).all(|(a, b)| a.to_bits() == b.to_bits()) {
+            rep.seen("refit:bitwise-identical-to-fresh", 1);
+        }
+        if sc.vacuous {
+            rep.seen("refit:vacuous-not-compared", 1);
+        } else {
+            // both are within B of the minimiser in the column-scaled norm (the bound `C14.reproduce.coef` uses)
+            let lim = 2.0 * sc.bound;
+            let mut worst = 0.0f64;
+            for j in 0..coef.len() {
+                let v = (coef[j] - fc[j]).abs() * sc.colnorm[j];
+                let r = if v == 0.0 { 0.0 } else if lim > 0.0 { v / lim } else { f64::INFINITY };
+                worst = worst.max(if r.is_nan() { f64::INFINITY } else { r });
+            }
+            rep.seen("refit:compared-with-fresh", 1);
+            rep.note_max("worst_ratio.refit_vs_fresh_over_limit", worst);
+            rep.check("C14.refit.equals_fresh", regime, worst <= 1.0, || {
+                json!({"degree": d, "n": n, "kind": c.kind, "sigma": c.sigma, "x": jf(&c.x), "y": jf(&c.y), "object_history": hj,
+                       "coef_reused_object": jf(&coef), "coef_fresh_object": jf(&fc), "scaled_diff_over_limit": jnum(worst), "limit_2B": lim})
+            });
+        }
+    }
+    true
+}
+
+/// Merge the verdicts on a reused object (`re`) and on its fresh twin (`fr`), both produced under the
+/// single-fit regime labels: violations of `re` that the twin does not share are re-labelled
+/// `assertion|reuse_regime`; shared ones and twin-only ones keep the single-fit signature.
+fn merge_differential(rep: &mut Report, mut re: Report, fr: Report, reuse_regime: &str) {
+    fn put(rep: &mut Report, v: Violation) {
+        let key = format!("{}|{}", v.assertion, v.regime);
+        match rep.violations.get_mut(&key) {
+            Some(e) => e.count += v.count,
+            None => {
+                rep.violations.insert(key, v);
+            }
+        }
+    }
+    let vs = std::mem::take(&mut re.violations);
+    rep.merge(re);
+    for (sig, v) in &fr.violations {
+        if !vs.contains_key(sig) {
+            let st = rep.assert_stat(&v.assertion);
+            st.checked += v.count;
+            st.failed += v.count;
+            put(rep, v.clone());
+        }
+    }
+    for (sig, mut v) in vs {
+        if !fr.violations.contains_key(&sig) {
+            v.regime = reuse_regime.to_string();
+        }
+        put(rep, v);
+    }
+}
+
+fn refit_case(i: usize, small: bool, rng: &mut Rng, rep: &mut Report) {
+    // small: interpreter layers (Miri) — the history matters there, not the size
+    let draw_n = |rng: &mut Rng, d: usize| if small { draw_n(rng, d).min(d + 40) } else { draw_n(rng, d) };
+    let d = i % 7;
+    let mode = (i / 7) % 3;
+    let mut model = PolynomialRegressor::new(d);
+    if mode == 2 {
+        // the caller has written something of the right length into the public field (a starting guess, a previous result)
+        let scale = *rng.choose(&[1.0, 1e3, 1e-3]);
+        let preset: Vec<f64> = (0..=d).map(|_| scale * rng.range(-3.0, 3.0)).collect();
+        model.coef = preset.clone();
+        let (kind, exact_int) = refit_kind(rng, d);
+        let n = draw_n(rng, d);
+        let b = build_case(rng, kind, d, n, exact_int);
+        refit_step(rep, "refit:after-set-coef", &mut model, &b, &History { preset: Some(&preset), earlier: vec![] });
+        return;
+    }
+    // data set A on the fresh object
+    let (kind, exact_int) = refit_kind(rng, d);
+    let na = draw_n(rng, d);
+    let a = build_case(rng, kind, d, na, exact_int);
+    if let Err(msg) = guard(|| {
+        model.fit(&a.x, &a.y);
+    }) {
+        let noise = if a.sigma == 0.0 { "exact" } else { "noisy" };
+        rep.check("C14.fit.no_panic", &format!("fit:{}:{}", a.kind, noise), false, || json!({"degree": d, "n": na, "kind": a.kind, "x": jf(&a.x), "y": jf(&a.y), "panic": msg}));
+        return;
+    }
+    // data set B: another number of points (mode 0) or whatever the size distribution gives (mode 1)
+    let (kind, exact_int) = refit_kind(rng, d);
+    let mut nb = draw_n(rng, d);
+    if mode == 0 && nb == na {
+        nb = if na < 2000 { na + 1 } else { na - 1 };
+    }
+    let b = build_case(rng, kind, d, nb, exact_int);
+    if !refit_step(rep, "refit:after-ok", &mut model, &b, &History { preset: None, earlier: vec![&a] }) || mode == 0 {
+        return;
+    }
+    // mode 1: a third data set on the same object
+    let (kind, exact_int) = refit_kind(rng, d);
+    let nc = draw_n(rng, d);
+    let c = build_case(rng, kind, d, nc, exact_int);
+    refit_step(rep, "refit:after-ok", &mut model, &c, &History { preset: None, earlier: vec![&a, &b] });
+}
+
+// ---------------------------------------------------------------------------------------------
+// size sweep: every (degree, n) of the quantifier is executed; cheap oracle in plain f64
+
+/// `fit` on a fresh regressor for one (degree, n): no panic, d+1 coefficients, and — unless the bound is
+/// vacuous — finite coefficients whose residual is orthogonal to every power within 2·B, B the bound of
+/// the main workload. The factor 2: residual and inner products are evaluated here in f64 with exactly
+/// rounded-at-each-step powers, which costs at most (γ_n + γ_{2d+4}·sqrt((d+1)·κ))·‖y‖ ≤ B on top of what
+/// the library is allowed.
+fn sweep_case(d: usize, n: usize, kind: &'static str, rng: &mut Rng, rep: &mut Report) {
+    let m = d + 1;
+    let regime = format!("sweep:deg={}", d);
+    rep.case(&regime);
+    let c = build_case(rng, kind, d, n, false);
+    rep.distinct(Hasher::new().s("sweep").s(c.kind).u(d as u64).u(n as u64).f(c.x[0]).f(c.y[0]).finish(), d >= 1 && c.sigma > 0.0 && n > m);
+    let input = |extra: serde_json::Value| json!({"degree": d, "n": n, "kind": c.kind, "sigma": c.sigma, "x": jf(&c.x), "y": jf(&c.y), "true_coef": jf(&c.truth), "detail": extra});
+    let fitted = guard(|| {
+        let mut model = PolynomialRegressor::new(d);
+        model.fit(&c.x, &c.y);
+        model.coef
+    });
+    let coef = match fitted {
+        Err(msg) => {
+            rep.check("C14.fit.no_panic", &regime, false, || input(json!({"panic": msg})));
+            return;
+        }
+        Ok(cf) => {
+            rep.check("C14.fit.no_panic", &regime, true, || json!(null));
+            cf
+        }
+    };
+    if !rep.check("C14.coef.len", &regime, coef.len() == m, || input(json!({"coef": jf(&coef)}))) {
+        return;
+    }
+    // powers, Gram matrix, column norms in f64
+    let mut v = vec![1.0f64; n * m];
+    for (i, &xi) in c.x.iter().enumerate() {
+        for j in 1..m {
+            v[i * m + j] = v[i * m + j - 1] * xi;
+        }
+    }
+    let mut gram = vec![0.0f64; m * m];
+    for row in v.chunks_exact(m) {
+        for a in 0..m {
+            for b in a..m {
+                gram[a * m + b] += row[a] * row[b];
+            }
+        }
+    }
+    let colnorm: Vec<f64> = (0..m).map(|j| gram[j * m + j].sqrt()).collect();
+    let mut gs = vec![0.0; m * m];
+    for a in 0..m {
+        for b in a..m {
+            let s = gram[a * m + b] / (colnorm[a] * colnorm[b]);
+            gs[a * m + b] = s;
+            gs[b * m + a] = s;
+        }
+    }
+    let ev = linref::jacobi_eigenvalues(&gs, m);
+    let kappa = if ev[0] > 0.0 { ev[m - 1] / ev[0] } else { f64::INFINITY };
+    let rel = (C_OPT * EPS + 4.0 * gamma_n(n)) * kappa;
+    if !(rel <= VACUOUS) {
+        rep.seen("sweep:vacuous:kappa-too-large", 1);
+        return;
+    }
+    rep.seen("sweep:checked", 1);
+    let ynorm = c.y.iter().map(|y| y * y).sum::<f64>().sqrt();
+    let bound = 2.0 * rel * ynorm;
+    if !rep.check("C14.coef.finite", &regime, coef.iter().all(|x| x.is_finite()), || input(json!({"coef": jf(&coef), "kappa": kappa}))) {
+        return;
+    }
+    let mut g = vec![0.0f64; m];
+    for (row, &yi) in v.chunks_exact(m).zip(&c.y) {
+        let f: f64 = row.iter().zip(&coef).map(|(p, c)| p * c).sum();
+        let r = yi - f;
+        for j in 0..m {
+            g[j] += r * row[j];
+        }
+    }
+    let mut worst = 0.0f64;
+    let mut wj = 0;
+    for j in 0..m {
+        let val = g[j].abs() / colnorm[j];
+        let ratio = if val == 0.0 { 0.0 } else if bound > 0.0 { val / bound } else { f64::INFINITY };
+        let ratio = if ratio.is_nan() { f64::INFINITY } else { ratio };
+        if ratio > worst {
+            worst = ratio;
+            wj = j;
+        }
+    }
+    rep.note_max("worst_ratio.sweep_orthogonality_over_2B", worst);
+    rep.check("C14.residual.orthogonal", &regime, worst <= 1.0, || {
+        input(json!({"coef": jf(&coef), "power": wj, "r_dot_xj_over_norm_f64": jnum(g[wj].abs() / colnorm[wj]), "bound_2B": bound, "kappa": kappa, "ratio": jnum(worst)}))
+    });
 }
 
 pub fn run(cfg: &Cfg, rep: &mut Report) {
-    rep.rule = "case i: abscissa kind = i mod 4 (uniform, clustered, Chebyshev, integer lattice in [-2,2]), degree = (i/4) mod 7 (integer lattice: <= 4), n in {d+1, d+2..30, 30..300, 300..2000}, y = polynomial(coef in [-3,3]) + sigma*normal with sigma = 0 (20%) or log-uniform 1e-8..1e4; exact-integer cases: lattice abscissae, integer coefficients in -5..5, degree <= 3, no noise. Then direct predict cases with arbitrary distinct coefficients. non-trivial = degree >= 1, noise > 0 and n > d+1 (optimality rather than interpolation); distinct by (kind, degree, n, sigma, first/last point)".into();
+    rep.rule = "case i: abscissa kind = i mod 4 (uniform, clustered, Chebyshev, integer lattice in [-2,2]), degree = (i/4) mod 7 (integer lattice: <= 4), n in {d+1, d+2..30, 30..300, 300..2000}, y = polynomial(coef in [-3,3]) + sigma*normal with sigma = 0 (20%) or log-uniform 1e-8..1e4; exact-integer cases: lattice abscissae, integer coefficients in -5..5, degree <= 3, no noise. Then direct predict cases with arbitrary distinct coefficients. Then refit histories on ONE regressor object (degree = i mod 7): fit A then B with another n; fit A, B, C; public coef field preset then fit — each refit gets the full single-fit oracle and is compared with a fresh regressor. Then the size sweep: every degree 0..6 with EVERY n in degree+1..2000 (quick: abscissa kind rotating with n; thorough: all four kinds), fresh regressor, cheap f64 oracle (no panic, shape, finite, orthogonality within 2B). non-trivial = degree >= 1, noise > 0 and n > d+1 (optimality rather than interpolation); distinct by (kind, degree, n, sigma, first/last point)".into();
     rep.assume("at least degree+1 distinct abscissae (ensured by the generator)");
     rep.assume("abscissae in [-2,2], finite responses; cases whose column-scaled Gram matrix has (64*eps + 4*gamma_n)*kappa > 1e-3 are counted as vacuous (only shape, finiteness of predict and Horner evaluation are checked there)");
     rep.assume("optimality bounds are stated relative to ||y|| (a-priori error of normal equations), not relative to ||r|| as DESIGN wrote: the latter is unsound for noise-free data");
@@ -391,6 +690,53 @@ pub fn run(cfg: &Cfg, rep: &mut Report) {
             rep.check("C14.predict.exact_integer", regime, got == exp, || json!({"coef": jf(&ic), "x": jf(&ix), "observed": jf(&got), "expected": jf(&exp)}));
         }
     });
+    // refit histories on one regressor object
+    rep.assume("a regressor object that has been fitted before, or whose public coef field holds any finite vector of length degree+1, is inside the quantifier: the property quantifies over data sets only; the refitted coefficients are compared with a fresh regressor's within twice the a-priori bound (not bitwise)");
+    let nr = cfg.pick(420, 8400, 7);
+    par_cases(cfg, rep, 3, nr, |i, rng: &mut Rng, rep| refit_case(i, cfg.miri(), rng, rep));
+    // size sweep: every degree with every n of the quantifier (thorough: once per abscissa kind)
+    let mut grid: Vec<(usize, usize, usize)> = Vec::new();
+    if cfg.lite {
+        for d in 0..7usize {
+            for n in (d + 1)..=(d + 6) {
+                grid.push((d, n, 0));
+            }
+            if !cfg.miri() {
+                for n in [64usize, 1000, 2000] {
+                    grid.push((d, n, 0));
+                }
+            }
+        }
+    } else {
+        for pass in 0..(if cfg.thorough() { 4 } else { 1 }) {
+            for n in 1..=2000usize {
+                for d in 0..7usize {
+                    if n >= d + 1 {
+                        grid.push((d, n, pass));
+                    }
+                }
+            }
+        }
+    }
+    par_cases(cfg, rep, 4, grid.len(), |i, rng: &mut Rng, rep| {
+        let (d, n, pass) = grid[i];
+        let mut kind = KINDS[(n + d + pass) % 4];
+        if kind == "integer" && d > 4 {
+            kind = "uniform";
+        }
+        sweep_case(d, n, kind, rng, rep);
+    });
+    for d in 0..7usize {
+        let per_pass = if cfg.lite { 1 } else { (2000 - d) as u64 };
+        rep.require(&format!("sweep:deg={}", d), per_pass * if cfg.thorough() && !cfg.lite { 4 } else { 1 });
+        rep.require(&format!("refit:deg={}", d), 1);
+    }
+    rep.require("refit:after-ok", 1);
+    rep.require("refit:after-set-coef", 1);
+    rep.require("refit:compared-with-fresh", 1);
+    rep.require("refit:n-grows", 1);
+    rep.require("refit:n-shrinks", 1);
+    rep.require("sweep:checked", 1);
     for k in KINDS {
         rep.require(&format!("fit:{}:noisy", k), 1);
         rep.require(&format!("checked:{}", k), 1);
